@@ -58,3 +58,18 @@ func (self *Pipestance) VerifQueueCheckIdle() bool {
 	defer self.queueCheckLock.Unlock()
 	return !self.queueCheckActive
 }
+
+// VerifAgeHeartbeats moves the time at which each job's last heartbeat was
+// seen back by d (simulated time), so that the heartbeat timeout of
+// Metadata.checkHeartbeat can be reached in a test.
+func (self *Pipestance) VerifAgeHeartbeats(d time.Duration) {
+	for _, node := range self.allNodes() {
+		for _, m := range node.collectMetadatas() {
+			m.mutex.Lock()
+			if !m.lastHeartbeat.IsZero() {
+				m.lastHeartbeat = m.lastHeartbeat.Add(-d)
+			}
+			m.mutex.Unlock()
+		}
+	}
+}
